@@ -22,6 +22,7 @@ import (
 	goast "go/ast"
 	"go/types"
 	"path/filepath"
+	"sort"
 
 	"github.com/goplus/gogen"
 	"github.com/goplus/gogen/packages"
@@ -152,10 +153,16 @@ func (c *Context) ParseFile(file string, src any) (*Package, error) {
 func (c *Context) loadPackage(srcDir string, pkgs map[string]*ast.Package) (*Package, error) {
 	mainPkg, ok := pkgs["main"]
 	if !ok {
-		for _, v := range pkgs {
-			mainPkg = v
-			break
+		if len(pkgs) == 0 {
+			return nil, fmt.Errorf("no XGo package found in %v", srcDir)
 		}
+		// no main package: pick deterministically (pkgs is a map)
+		names := make([]string, 0, len(pkgs))
+		for name := range pkgs {
+			names = append(names, name)
+		}
+		sort.Strings(names)
+		mainPkg = pkgs[names[0]]
 	}
 	conf := &cl.Config{Fset: c.fset}
 	conf.Importer = c
@@ -191,7 +198,7 @@ func (ctx *Context) BuildFSDir(fs parser.FileSystem, dir string) (data []byte, e
 	defer func() {
 		r := recover()
 		if r != nil {
-			err = fmt.Errorf("compile %v failed. %v", dir, err)
+			err = fmt.Errorf("compile %v failed. %v", dir, r)
 		}
 	}()
 	pkg, err := ctx.ParseFSDir(fs, dir)
@@ -205,7 +212,7 @@ func (ctx *Context) BuildDir(dir string) (data []byte, err error) {
 	defer func() {
 		r := recover()
 		if r != nil {
-			err = fmt.Errorf("compile %v failed. %v", dir, err)
+			err = fmt.Errorf("compile %v failed. %v", dir, r)
 		}
 	}()
 	pkg, err := ctx.ParseDir(dir)
